@@ -58,7 +58,7 @@ Verdict(it, j) ==
         \* not the Python answer, but exactly what C01 already records as a deviation of the translator itself
         \* (the same on every dialect): reported under C01, only counted here
         c01 == IF ok \/ ~sql.ok THEN <<>>
-               ELSE SelectSeq(In.devs, LAMBDA dv : \E coll \in {"unknown", "ignored"} : Agrees(it, Q!RunQuery(it.q, Q!Cx(D, coll, {dv})), got))
+               ELSE SelectSeq(In.devs, LAMBDA dv : \E coll \in {"ignored"} : Agrees(it, Q!RunQuery(it.q, Q!Cx(D, coll, {dv})), got))
     IN [ds |-> k, ok |-> ok, err |-> ~sql.ok, c01 |-> c01,
         got |-> IF ok /\ ~In.rows THEN <<>> ELSE sql.rows,
         exp |-> IF ok THEN <<>> ELSE Sliced(r1.rows, it.slice)]
